@@ -33,7 +33,7 @@ impl<'a> Generator<'a> {
         let mut eoi = TokenStream::default();
 
         // If the input buffer is a prefix and some transitions are still possible, return None
-        if !state_data.normal.is_empty() {
+        if !state_data.normal.is_empty() || state_data.eoi.is_some() {
             eoi.append_all(quote! {
                 if lex.is_prefix() {
                     lex.end(lex.offset());
